@@ -8,6 +8,7 @@ import (
 	"os"
 	"path/filepath"
 	"regexp"
+	"sort"
 	"strconv"
 	"strings"
 
@@ -71,13 +72,30 @@ func parserRequestURL(c *Client, req *Request) error {
 		}
 	}
 
-	// Set path parameters from the request and client.
-	req.path.VisitAll(func(key, val string) {
-		uri = strings.ReplaceAll(uri, ":"+key, val)
+	// Set path parameters from the request and client: the request's value wins, and longer names go first -
+	// ":id" must not eat the beginning of ":idx" (the parameters live in maps, whose order changes from call to call).
+	keys := make([]string, 0, len(*req.path)+len(*c.path))
+	req.path.VisitAll(func(key, _ string) {
+		keys = append(keys, key)
 	})
-	c.path.VisitAll(func(key, val string) {
-		uri = strings.ReplaceAll(uri, ":"+key, val)
+	c.path.VisitAll(func(key, _ string) {
+		if _, ok := (*req.path)[key]; !ok {
+			keys = append(keys, key)
+		}
 	})
+	sort.Slice(keys, func(i, j int) bool {
+		if len(keys[i]) != len(keys[j]) {
+			return len(keys[i]) > len(keys[j])
+		}
+		return keys[i] < keys[j]
+	})
+	for _, key := range keys {
+		val, ok := (*req.path)[key]
+		if !ok {
+			val = (*c.path)[key]
+		}
+		uri = strings.ReplaceAll(uri, ":"+key, val)
+	}
 
 	// Set the URI in the raw request.
 	req.RawRequest.SetRequestURI(uri)
